@@ -162,6 +162,13 @@ class LoopSpec:
     modifies: tuple = ()
 
 
+@dataclass(frozen=True)
+class Tri:
+    """a three-valued Python value that is True, False or None (SymPy assumption attributes): t = "is True", f = "is False" """
+    t: Any
+    f: Any
+
+
 # ------------------------------------------------------------------------------------------ front-end normalisation
 class _Rename(ast.NodeTransformer):
     def __init__(self, mapping):
@@ -315,6 +322,8 @@ class Exec:
             return v
         if isinstance(v, NoneVal):
             return False
+        if isinstance(v, Tri):
+            return v.t
         if isinstance(v, (int, Fraction)):
             return v != 0
         if isinstance(v, str):
@@ -1117,6 +1126,15 @@ class Exec:
             out = h(self, ctx, type(op).__name__, l, r)
             if out is not None:
                 return out
+        if isinstance(op, (ast.Is, ast.Eq)) and (isinstance(l, Tri) or isinstance(r, Tri)):
+            tri, other = (l, r) if isinstance(l, Tri) else (r, l)
+            if other is True:
+                return tri.t
+            if other is False:
+                return tri.f
+            if isinstance(other, NoneVal):
+                return z3.And(z3.Not(tri.t), z3.Not(tri.f))
+            raise GenError(f"comparison of a three-valued attribute with {other!r}")
         if isinstance(op, (ast.Is, ast.Eq)):
             if isinstance(op, ast.Is) and not (isinstance(l, NoneVal) or isinstance(r, NoneVal) or isinstance(l, (TypeRef, bool)) or isinstance(r, (TypeRef, bool))):
                 idm = self.models.get("__is__")
